@@ -9,7 +9,7 @@ if ! git apply --3way "$patch" 2>/tmp/try_mut.err && ! git apply "$patch" 2>>/tm
   cat /tmp/try_mut.err >&2; git checkout -- . ; git reset -q; exit 3
 fi
 git reset -q
-cd /verif && ./check "$@"; rc=$?
+cd /verif && VERIF_EVIDENCE_DIR=/tmp/mutation-evidence VERIF_REPLAY_DIR=/tmp/mutation-replays ./check "$@"; rc=$?
 cd /repo && git checkout -- . && git status --short | grep -v '^??' 
 echo "try_mutation rc=$rc"
 exit $rc
